@@ -14,4 +14,10 @@ CONTROLS = [
     dict(name="kwargs names are lower-cased",
          edits=[(F, '        name: str = name.lstrip("*")\n', '        name: str = name.lstrip("*").lower()\n')],
          expect=r"_set_name_and_type/ensures\[[12]\]"),
+    dict(name="primary_key / foreign_key only folded (and deleted) when truthy (seed C14_c shape)",
+         edits=[("cdd/sqlalchemy/utils/parse_utils.py", "        if longname in _param:\n            _param[\"doc\"] = (", "        if _param.get(longname):\n            _param[\"doc\"] = (")],
+         expect=r"fold-keywords/block.ensures\[[01]\]"),
+    dict(name="nullable keyword kept on the entry",
+         edits=[("cdd/sqlalchemy/utils/parse_utils.py", "        not _param[\"nullable\"] or _handle_null()\n        del _param[\"nullable\"]\n", "        not _param[\"nullable\"] or _handle_null()\n")],
+         expect=r"fold-keywords/block.ensures\[2\]"),
 ]
